@@ -13,7 +13,10 @@ MaxLate(e, k) == 60000 + (k * PerUs(e)) \div 10
 SpacingOK(e) == LET t == e.times per == PerUs(e) IN
    \A i \in 1..Len(t) : \A j \in (i + 1)..Len(t) : t[j] - t[i] >= (j - i - B) * per - MaxLate(e, j - i)
 ParsedOK(e) == LET x == ParseRate(e.chars) IN x.v \in {"accept", "exact"} /\ x.val = <<e.n, e.winMs, e.winNs>>
-RunOK(e) == ParsedOK(e) /\ SpacingOK(e) /\ Len(e.times) = e.expected
+\* a run during which the measuring process itself was held up for more than StallLimit (its own 200 us sleeper overslept that long, in
+\* each of three attempts) says nothing about spacing: the wake-ups of the limiter's sleepers were late for the same reason
+StallLimit == 10000
+RunOK(e) == ParsedOK(e) /\ Len(e.times) = e.expected /\ (e.stallUs > StallLimit \/ SpacingOK(e))
 VARIABLE l
 Init == l = 1
 Next == l <= Len(Trace) /\ RunOK(Trace[l]) /\ l' = l + 1
